@@ -282,8 +282,8 @@ def run(ctx):
     conts = conts + UNKNOWN_REGISTERED
     ctx.notes["modelled_as_unknown_box"] = UNKNOWN_REGISTERED
     pr = ctx.proofs("c01", "C01Theorems.v")
-    n = ctx.n(6000, 200000)
-    lines, mism = run_corr(ctx, exe, model, ["-seed", str(ctx.seed), "-n", str(n), "-nfile", str(ctx.n(700, 30000)),
+    n = ctx.n(5000, 200000)
+    lines, mism = run_corr(ctx, exe, model, ["-seed", str(ctx.seed), "-n", str(n), "-nfile", str(ctx.n(500, 30000)),
                                              "-kinds", ",".join(leaves + conts)],
                            "DecodeBoxSR + Size + Encode + EncodeSW vs decode/size_box/encode_w/encode_sw of the model; whole files: "
                            "DecodeFileSR + IsFragmented + File.Encode + File.EncodeSW (box-tree mode) vs decode_file_sr/file_frag/"
